@@ -178,16 +178,14 @@ package bufconfig
 //
 // Writer side, v2 lint: every accessor of the LintConfig lands in the corresponding field; paths are
 // re-based onto the module directory; and a module whose lint is switched off stays switched off.
-// FINDING (fails on this tree, all three writers): post[disabled-preserved]. Disabled() is never consulted, a
-// disabled config has no ignore paths, so the written section is empty and reads back as an ENABLED config.
-// Minimal repair: emit moduleDirPath as an ignore path when Disabled() (what the reader already interprets);
-// the `ignore` clause and loop invariant 0.1 then need the guard `!Disabled() ==>` (checked on a repaired overlay).
+// post[disabled-preserved] failed on all three writers before the repair "fix: buf.yaml writers must keep a
+// disabled check config disabled" (Disabled() was never consulted; the empty section read back as ENABLED).
 //@ func getExternalLintV2ForLintConfig(lintConfig, moduleDirPath) (r)
 //@   property C16
 //@   closure 0 ensures r == normalpath.Join(moduleDirPath, importPath)
 //@   ensures use: r.Use == lintConfig.UseIDsAndCategories()
 //@   ensures except: r.Except == lintConfig.ExceptIDsAndCategories()
-//@   ensures ignore: len(r.Ignore) == len(lintConfig.IgnorePaths()) && (forall i int :: 0 <= i && i < len(r.Ignore) ==> r.Ignore[i] == normalpath.Join(moduleDirPath, lintConfig.IgnorePaths()[i]))
+//@   ensures ignore: !lintConfig.Disabled() ==> len(r.Ignore) == len(lintConfig.IgnorePaths()) && (forall i int :: 0 <= i && i < len(r.Ignore) ==> r.Ignore[i] == normalpath.Join(moduleDirPath, lintConfig.IgnorePaths()[i]))
 //@   ensures ignore-only-keys: forall k string :: (k in r.IgnoreOnly) <==> (k in lintConfig.IgnoreIDOrCategoryToPaths())
 //@   ensures ignore-only-paths: forall k string :: k in r.IgnoreOnly ==> len(r.IgnoreOnly[k]) == len(lintConfig.IgnoreIDOrCategoryToPaths()[k]) && (forall i int :: 0 <= i && i < len(r.IgnoreOnly[k]) ==> r.IgnoreOnly[k][i] == normalpath.Join(moduleDirPath, lintConfig.IgnoreIDOrCategoryToPaths()[k][i]))
 //@   ensures enum-zero-value-suffix: r.EnumZeroValueSuffix == lintConfig.EnumZeroValueSuffix()
@@ -201,7 +199,8 @@ package bufconfig
 //@   reveal e_disabledByIgnores
 //@   ensures disabled-preserved: lintConfig.Disabled() && validRel(moduleDirPath) ==> e_disabledByIgnores(r.Ignore, moduleDirPath)
 //@   loop 0 invariant externalLint.Use == lintConfig.UseIDsAndCategories() && externalLint.Except == lintConfig.ExceptIDsAndCategories()
-//@   loop 0 invariant len(externalLint.Ignore) == len(lintConfig.IgnorePaths()) && (forall i int :: 0 <= i && i < len(externalLint.Ignore) ==> externalLint.Ignore[i] == normalpath.Join(moduleDirPath, lintConfig.IgnorePaths()[i]))
+//@   loop 0 invariant lintConfig.Disabled() ==> len(externalLint.Ignore) == 1 && externalLint.Ignore[0] == moduleDirPath
+//@   loop 0 invariant !lintConfig.Disabled() ==> len(externalLint.Ignore) == len(lintConfig.IgnorePaths()) && (forall i int :: 0 <= i && i < len(externalLint.Ignore) ==> externalLint.Ignore[i] == normalpath.Join(moduleDirPath, lintConfig.IgnorePaths()[i]))
 //@   loop 0 invariant forall k string :: (k in externalLint.IgnoreOnly) <==> (k in $visited)
 //@   loop 0 invariant forall k string :: k in $visited ==> k in lintConfig.IgnoreIDOrCategoryToPaths()
 //@   loop 0 invariant forall k string :: k in externalLint.IgnoreOnly ==> len(externalLint.IgnoreOnly[k]) == len(lintConfig.IgnoreIDOrCategoryToPaths()[k]) && (forall i int :: 0 <= i && i < len(externalLint.IgnoreOnly[k]) ==> externalLint.IgnoreOnly[k][i] == normalpath.Join(moduleDirPath, lintConfig.IgnoreIDOrCategoryToPaths()[k][i]))
@@ -211,7 +210,7 @@ package bufconfig
 //@   closure 0 ensures r == normalpath.Join(moduleDirPath, importPath)
 //@   ensures use: r.Use == lintConfig.UseIDsAndCategories()
 //@   ensures except: r.Except == lintConfig.ExceptIDsAndCategories()
-//@   ensures ignore: len(r.Ignore) == len(lintConfig.IgnorePaths()) && (forall i int :: 0 <= i && i < len(r.Ignore) ==> r.Ignore[i] == normalpath.Join(moduleDirPath, lintConfig.IgnorePaths()[i]))
+//@   ensures ignore: !lintConfig.Disabled() ==> len(r.Ignore) == len(lintConfig.IgnorePaths()) && (forall i int :: 0 <= i && i < len(r.Ignore) ==> r.Ignore[i] == normalpath.Join(moduleDirPath, lintConfig.IgnorePaths()[i]))
 //@   ensures ignore-only-keys: forall k string :: (k in r.IgnoreOnly) <==> (k in lintConfig.IgnoreIDOrCategoryToPaths())
 //@   ensures ignore-only-paths: forall k string :: k in r.IgnoreOnly ==> len(r.IgnoreOnly[k]) == len(lintConfig.IgnoreIDOrCategoryToPaths()[k]) && (forall i int :: 0 <= i && i < len(r.IgnoreOnly[k]) ==> r.IgnoreOnly[k][i] == normalpath.Join(moduleDirPath, lintConfig.IgnoreIDOrCategoryToPaths()[k][i]))
 //@   ensures enum-zero-value-suffix: r.EnumZeroValueSuffix == lintConfig.EnumZeroValueSuffix()
@@ -225,7 +224,8 @@ package bufconfig
 //@   reveal e_disabledByIgnores
 //@   ensures disabled-preserved: lintConfig.Disabled() && validRel(moduleDirPath) ==> e_disabledByIgnores(r.Ignore, moduleDirPath)
 //@   loop 0 invariant externalLint.Use == lintConfig.UseIDsAndCategories() && externalLint.Except == lintConfig.ExceptIDsAndCategories()
-//@   loop 0 invariant len(externalLint.Ignore) == len(lintConfig.IgnorePaths()) && (forall i int :: 0 <= i && i < len(externalLint.Ignore) ==> externalLint.Ignore[i] == normalpath.Join(moduleDirPath, lintConfig.IgnorePaths()[i]))
+//@   loop 0 invariant lintConfig.Disabled() ==> len(externalLint.Ignore) == 1 && externalLint.Ignore[0] == moduleDirPath
+//@   loop 0 invariant !lintConfig.Disabled() ==> len(externalLint.Ignore) == len(lintConfig.IgnorePaths()) && (forall i int :: 0 <= i && i < len(externalLint.Ignore) ==> externalLint.Ignore[i] == normalpath.Join(moduleDirPath, lintConfig.IgnorePaths()[i]))
 //@   loop 0 invariant forall k string :: (k in externalLint.IgnoreOnly) <==> (k in $visited)
 //@   loop 0 invariant forall k string :: k in $visited ==> k in lintConfig.IgnoreIDOrCategoryToPaths()
 //@   loop 0 invariant forall k string :: k in externalLint.IgnoreOnly ==> len(externalLint.IgnoreOnly[k]) == len(lintConfig.IgnoreIDOrCategoryToPaths()[k]) && (forall i int :: 0 <= i && i < len(externalLint.IgnoreOnly[k]) ==> externalLint.IgnoreOnly[k][i] == normalpath.Join(moduleDirPath, lintConfig.IgnoreIDOrCategoryToPaths()[k][i]))
@@ -235,7 +235,7 @@ package bufconfig
 //@   closure 0 ensures r == normalpath.Join(moduleDirPath, importPath)
 //@   ensures use: r.Use == breakingConfig.UseIDsAndCategories()
 //@   ensures except: r.Except == breakingConfig.ExceptIDsAndCategories()
-//@   ensures ignore: len(r.Ignore) == len(breakingConfig.IgnorePaths()) && (forall i int :: 0 <= i && i < len(r.Ignore) ==> r.Ignore[i] == normalpath.Join(moduleDirPath, breakingConfig.IgnorePaths()[i]))
+//@   ensures ignore: !breakingConfig.Disabled() ==> len(r.Ignore) == len(breakingConfig.IgnorePaths()) && (forall i int :: 0 <= i && i < len(r.Ignore) ==> r.Ignore[i] == normalpath.Join(moduleDirPath, breakingConfig.IgnorePaths()[i]))
 //@   ensures ignore-only-keys: forall k string :: (k in r.IgnoreOnly) <==> (k in breakingConfig.IgnoreIDOrCategoryToPaths())
 //@   ensures ignore-only-paths: forall k string :: k in r.IgnoreOnly ==> len(r.IgnoreOnly[k]) == len(breakingConfig.IgnoreIDOrCategoryToPaths()[k]) && (forall i int :: 0 <= i && i < len(r.IgnoreOnly[k]) ==> r.IgnoreOnly[k][i] == normalpath.Join(moduleDirPath, breakingConfig.IgnoreIDOrCategoryToPaths()[k][i]))
 //@   ensures ignore-unstable-packages: r.IgnoreUnstablePackages == breakingConfig.IgnoreUnstablePackages()
@@ -244,7 +244,8 @@ package bufconfig
 //@   reveal e_disabledByIgnores
 //@   ensures disabled-preserved: breakingConfig.Disabled() && validRel(moduleDirPath) ==> e_disabledByIgnores(r.Ignore, moduleDirPath)
 //@   loop 0 invariant externalBreaking.Use == breakingConfig.UseIDsAndCategories() && externalBreaking.Except == breakingConfig.ExceptIDsAndCategories()
-//@   loop 0 invariant len(externalBreaking.Ignore) == len(breakingConfig.IgnorePaths()) && (forall i int :: 0 <= i && i < len(externalBreaking.Ignore) ==> externalBreaking.Ignore[i] == normalpath.Join(moduleDirPath, breakingConfig.IgnorePaths()[i]))
+//@   loop 0 invariant breakingConfig.Disabled() ==> len(externalBreaking.Ignore) == 1 && externalBreaking.Ignore[0] == moduleDirPath
+//@   loop 0 invariant !breakingConfig.Disabled() ==> len(externalBreaking.Ignore) == len(breakingConfig.IgnorePaths()) && (forall i int :: 0 <= i && i < len(externalBreaking.Ignore) ==> externalBreaking.Ignore[i] == normalpath.Join(moduleDirPath, breakingConfig.IgnorePaths()[i]))
 //@   loop 0 invariant forall k string :: (k in externalBreaking.IgnoreOnly) <==> (k in $visited)
 //@   loop 0 invariant forall k string :: k in $visited ==> k in breakingConfig.IgnoreIDOrCategoryToPaths()
 //@   loop 0 invariant forall k string :: k in externalBreaking.IgnoreOnly ==> len(externalBreaking.IgnoreOnly[k]) == len(breakingConfig.IgnoreIDOrCategoryToPaths()[k]) && (forall i int :: 0 <= i && i < len(externalBreaking.IgnoreOnly[k]) ==> externalBreaking.IgnoreOnly[k][i] == normalpath.Join(moduleDirPath, breakingConfig.IgnoreIDOrCategoryToPaths()[k][i]))
@@ -293,6 +294,8 @@ package bufconfig
 // every scalar field of the section arrives in its own accessor field (disallow_comment_ignores inverted);
 // the check is switched off exactly when an ignore path names the module directory; otherwise use/except
 // arrive as the same sets, ignore paths and ignore_only paths arrive re-based onto the module directory.
+// The lint-option clauses are tagged C05 as well: the lint handlers are verified against the LintConfig
+// accessors, so "rule options and config versions" (C05) reach the rules only through these readers.
 //@ func getLintConfigForExternalLintV2(fileVersion, externalLint, moduleDirPath, requirePathsToBeContainedWithinModuleDirPath) (r, err)
 //@   property C16
 //@   requires validRel(moduleDirPath)
@@ -300,12 +303,12 @@ package bufconfig
 //@   ensures typed: err == nil ==> r != nil && cast(*lintConfig, r) != nil && cast(*checkConfig, cast(*lintConfig, r).CheckConfig) != nil
 //@   ensures disabled-iff-self-ignored: err == nil ==> (cast(*checkConfig, cast(*lintConfig, r).CheckConfig).disabled <==> e_disabledByIgnores(externalLint.Ignore, moduleDirPath))
 //@   ensures version: err == nil ==> cast(*checkConfig, cast(*lintConfig, r).CheckConfig).fileVersion == fileVersion
-//@   ensures enum-zero-value-suffix: err == nil ==> cast(*lintConfig, r).enumZeroValueSuffix == externalLint.EnumZeroValueSuffix
-//@   ensures rpc-same: err == nil ==> cast(*lintConfig, r).rpcAllowSameRequestResponse == externalLint.RPCAllowSameRequestResponse
-//@   ensures rpc-empty-requests: err == nil ==> cast(*lintConfig, r).rpcAllowGoogleProtobuEmptyRequests == externalLint.RPCAllowGoogleProtobufEmptyRequests
-//@   ensures rpc-empty-responses: err == nil ==> cast(*lintConfig, r).rpcAllowGoogleProtobufEmptyResponses == externalLint.RPCAllowGoogleProtobufEmptyResponses
-//@   ensures service-suffix: err == nil ==> cast(*lintConfig, r).serviceSuffix == externalLint.ServiceSuffix
-//@   ensures comment-ignores-inverted: err == nil ==> cast(*lintConfig, r).allowCommentIgnores == !externalLint.DisallowCommentIgnores
+//@   ensures enum-zero-value-suffix {C05 C16}: err == nil ==> cast(*lintConfig, r).enumZeroValueSuffix == externalLint.EnumZeroValueSuffix
+//@   ensures rpc-same {C05 C16}: err == nil ==> cast(*lintConfig, r).rpcAllowSameRequestResponse == externalLint.RPCAllowSameRequestResponse
+//@   ensures rpc-empty-requests {C05 C16}: err == nil ==> cast(*lintConfig, r).rpcAllowGoogleProtobuEmptyRequests == externalLint.RPCAllowGoogleProtobufEmptyRequests
+//@   ensures rpc-empty-responses {C05 C16}: err == nil ==> cast(*lintConfig, r).rpcAllowGoogleProtobufEmptyResponses == externalLint.RPCAllowGoogleProtobufEmptyResponses
+//@   ensures service-suffix {C05 C16}: err == nil ==> cast(*lintConfig, r).serviceSuffix == externalLint.ServiceSuffix
+//@   ensures comment-ignores-inverted {C05 C16}: err == nil ==> cast(*lintConfig, r).allowCommentIgnores == !externalLint.DisallowCommentIgnores
 //@   ensures use: err == nil && !cast(*checkConfig, cast(*lintConfig, r).CheckConfig).disabled ==> e_sameSet(cast(*checkConfig, cast(*lintConfig, r).CheckConfig).use, externalLint.Use) && e_sorted(cast(*checkConfig, cast(*lintConfig, r).CheckConfig).use)
 //@   ensures except: err == nil && !cast(*checkConfig, cast(*lintConfig, r).CheckConfig).disabled ==> e_sameSet(cast(*checkConfig, cast(*lintConfig, r).CheckConfig).except, externalLint.Except) && e_sorted(cast(*checkConfig, cast(*lintConfig, r).CheckConfig).except)
 //@   ensures disable-builtin: err == nil && !cast(*checkConfig, cast(*lintConfig, r).CheckConfig).disabled ==> cast(*checkConfig, cast(*lintConfig, r).CheckConfig).disableBuiltin == externalLint.DisableBuiltin
@@ -325,12 +328,12 @@ package bufconfig
 //@   ensures typed: err == nil ==> r != nil && cast(*lintConfig, r) != nil && cast(*checkConfig, cast(*lintConfig, r).CheckConfig) != nil
 //@   ensures disabled-iff-self-ignored: err == nil ==> (cast(*checkConfig, cast(*lintConfig, r).CheckConfig).disabled <==> e_disabledByIgnores(externalLint.Ignore, moduleDirPath))
 //@   ensures version: err == nil ==> cast(*checkConfig, cast(*lintConfig, r).CheckConfig).fileVersion == fileVersion
-//@   ensures enum-zero-value-suffix: err == nil ==> cast(*lintConfig, r).enumZeroValueSuffix == externalLint.EnumZeroValueSuffix
-//@   ensures rpc-same: err == nil ==> cast(*lintConfig, r).rpcAllowSameRequestResponse == externalLint.RPCAllowSameRequestResponse
-//@   ensures rpc-empty-requests: err == nil ==> cast(*lintConfig, r).rpcAllowGoogleProtobuEmptyRequests == externalLint.RPCAllowGoogleProtobufEmptyRequests
-//@   ensures rpc-empty-responses: err == nil ==> cast(*lintConfig, r).rpcAllowGoogleProtobufEmptyResponses == externalLint.RPCAllowGoogleProtobufEmptyResponses
-//@   ensures service-suffix: err == nil ==> cast(*lintConfig, r).serviceSuffix == externalLint.ServiceSuffix
-//@   ensures comment-ignores: err == nil ==> cast(*lintConfig, r).allowCommentIgnores == externalLint.AllowCommentIgnores
+//@   ensures enum-zero-value-suffix {C05 C16}: err == nil ==> cast(*lintConfig, r).enumZeroValueSuffix == externalLint.EnumZeroValueSuffix
+//@   ensures rpc-same {C05 C16}: err == nil ==> cast(*lintConfig, r).rpcAllowSameRequestResponse == externalLint.RPCAllowSameRequestResponse
+//@   ensures rpc-empty-requests {C05 C16}: err == nil ==> cast(*lintConfig, r).rpcAllowGoogleProtobuEmptyRequests == externalLint.RPCAllowGoogleProtobufEmptyRequests
+//@   ensures rpc-empty-responses {C05 C16}: err == nil ==> cast(*lintConfig, r).rpcAllowGoogleProtobufEmptyResponses == externalLint.RPCAllowGoogleProtobufEmptyResponses
+//@   ensures service-suffix {C05 C16}: err == nil ==> cast(*lintConfig, r).serviceSuffix == externalLint.ServiceSuffix
+//@   ensures comment-ignores {C05 C16}: err == nil ==> cast(*lintConfig, r).allowCommentIgnores == externalLint.AllowCommentIgnores
 //@   ensures use: err == nil && !cast(*checkConfig, cast(*lintConfig, r).CheckConfig).disabled ==> e_sameSet(cast(*checkConfig, cast(*lintConfig, r).CheckConfig).use, externalLint.Use) && e_sorted(cast(*checkConfig, cast(*lintConfig, r).CheckConfig).use)
 //@   ensures except: err == nil && !cast(*checkConfig, cast(*lintConfig, r).CheckConfig).disabled ==> e_sameSet(cast(*checkConfig, cast(*lintConfig, r).CheckConfig).except, externalLint.Except) && e_sorted(cast(*checkConfig, cast(*lintConfig, r).CheckConfig).except)
 //@   ensures disable-builtin: err == nil && !cast(*checkConfig, cast(*lintConfig, r).CheckConfig).disabled ==> cast(*checkConfig, cast(*lintConfig, r).CheckConfig).disableBuiltin == externalLint.DisableBuiltin
